@@ -672,6 +672,77 @@ pub fn run_two_pass(sc: &Scenario, solutions: Vec<Solution>, pool: Option<&rayon
     RealRun { verdict, beacons: decode_beacons(&events), events }
 }
 
+/// The two run modes called in sequence over one shared cache, with a harness-owned post-state
+/// view (the overlay is built by the harness from the first phase's outputs with its own decoder).
+pub fn run_two_phase_manual(sc: &Scenario, pool: Option<&rayon::ThreadPool>) -> RealRun {
+    use essential_check::solution::{check_set_predicates, DataOutput, RunMode};
+    let log = Arc::new(SpyLog::default());
+    let pre = View::new(0, &sc.pre, log.clone());
+    let (preds, progs) = maps(sc);
+    let preds = Arc::new(preds);
+    let progs = Arc::new(progs);
+    let cfg = Arc::new(CheckPredicateConfig { collect_all_failures: sc.collect_all });
+    let body = || {
+        catch(|| -> Result<(u64, Vec<Vec<Mutation>>), Result<BTreeMap<usize, RealFail>, String>> {
+            let fail = |e: PredicatesError<String>| match e {
+                PredicatesError::Failed(errs) => Ok(errs.0.iter().map(|(i, e)| (*i as usize, classify(e))).collect()),
+                other => Err(format!("{other}")),
+            };
+            let mut cache = HashMap::new();
+            let mut sols = sc.solutions.clone();
+            // phase 1: outputs; post view = pre-state (no mutations known yet)
+            let empty = Overlay { pre: pre.clone(), map: Arc::new(BTreeMap::new()) };
+            let out1 = check_set_predicates(&(pre.clone(), empty), Arc::new(SolutionSet { solutions: sols.clone() }), preds.clone(), progs.clone(), cfg.clone(), RunMode::Outputs, &mut cache).map_err(fail)?;
+            let mut gas = out1.gas;
+            let mut apply = |outs: essential_check::solution::Outputs, sols: &mut Vec<Solution>| -> Result<(), Result<BTreeMap<usize, RealFail>, String>> {
+                for d in outs.data {
+                    let si = d.solution_index as usize;
+                    let mut keys: BTreeSet<Key> = sols[si].state_mutations.iter().map(|m| m.key.clone()).collect();
+                    for o in d.data {
+                        let DataOutput::Memory(mem) = o;
+                        match own_decode_mutations(&mem) {
+                            Ok(ms) => {
+                                for m in ms {
+                                    if !keys.insert(m.key.clone()) {
+                                        return Err(Ok([(si, RealFail::Mutations)].into_iter().collect()));
+                                    }
+                                    sols[si].state_mutations.push(m);
+                                }
+                            }
+                            Err(_) => return Err(Ok([(si, RealFail::Mutations)].into_iter().collect())),
+                        }
+                    }
+                }
+                Ok(())
+            };
+            apply(out1, &mut sols)?;
+            let mut overlay = BTreeMap::new();
+            for s in &sols {
+                for m in &s.state_mutations {
+                    overlay.insert((s.predicate_to_solve.contract.clone(), m.key.clone()), m.value.clone());
+                }
+            }
+            let post = Overlay { pre: pre.clone(), map: Arc::new(overlay) };
+            let out2 = check_set_predicates(&(pre.clone(), post), Arc::new(SolutionSet { solutions: sols.clone() }), preds.clone(), progs.clone(), cfg.clone(), RunMode::Checks, &mut cache).map_err(fail)?;
+            gas = gas.saturating_add(out2.gas);
+            apply(out2, &mut sols)?;
+            Ok((gas, sols.into_iter().map(|s| s.state_mutations).collect()))
+        })
+    };
+    let res = match pool {
+        Some(p) => p.install(body),
+        None => body(),
+    };
+    let verdict = match res {
+        Err(p) => RealVerdict::Panic(p),
+        Ok(Ok((gas, mutations))) => RealVerdict::Ok { gas, mutations },
+        Ok(Err(Ok(failing))) => RealVerdict::Err { failing },
+        Ok(Err(Err(e))) => RealVerdict::Other(e),
+    };
+    let events = log.take();
+    RealRun { verdict, beacons: decode_beacons(&events), events }
+}
+
 // ---------------------------------------------------------------------------------------
 // Comparison
 
